@@ -116,6 +116,35 @@ pub fn run(em: &mut Emit, thorough: bool, seed: u64) {
             }
         }
     }
+    // library state that could outlive one call: many distinct valid patterns through `matches`
+    // on one thread, in one program and in a sequence of programs (the patterns have no
+    // metacharacters, so the model interprets them)
+    {
+        let pats: Vec<String> = (0..48).map(|i| format!("'k{}z'", i)).collect();
+        let spec = CtxSpec { vars: vec![("s".into(), Value::String(Arc::new("k7z k33z k40z".to_string())))], funs: vec![] };
+        emit_program(em, &format!("[{}].filter(p, s.matches(p))", pats.join(", ")), &spec, "nt=1;kind=c02-many-patterns");
+        emit_program(em, &format!("[{}].map(p, 'k12z'.matches(p))", pats.join(", ")), &spec, "nt=1;kind=c02-many-patterns");
+        for i in 0..80 {
+            emit_program(em, &format!("s.matches('k{}z') || 'q{}'.matches('q{}')", i, i, i % 7), &spec, "nt=1;kind=c02-many-patterns");
+        }
+        emit_program(em, &format!("[{}].exists(p, s.matches(p))", pats.join(", ")), &spec, "nt=1;kind=c02-many-patterns");
+    }
+    // host functions with every kind of extractor called with too few, enough and too many
+    // arguments, in both call styles
+    {
+        let kinds = ["hident", "hident_v", "hv_ident", "hexpr", "hexpr_v", "hargs", "hthis", "hthis_v", "hthis_vv", "hthis_opt_i", "hthis_opt_s_v", "his", "hs2"];
+        let spec = CtxSpec {
+            vars: vec![("x".into(), Value::Int(1)), ("y".into(), Value::String(Arc::new("s".to_string())))],
+            funs: kinds.iter().enumerate().map(|(i, k)| HostFn { kind: k, name: format!("hf{}", i) }).collect(),
+        };
+        for i in 0..kinds.len() {
+            for args in ["", "x", "x, y", "x, y, 1", "y, x, 2, 3", "1 / 0", "x, 1 / 0", "zz", "x.y"] {
+                emit_program(em, &format!("hf{}({})", i, args), &spec, "nt=1;kind=c02-host-arity");
+                emit_program(em, &format!("x.hf{}({})", i, args), &spec, "nt=1;kind=c02-host-arity");
+                emit_program(em, &format!("[x, y].map(v, hf{}({}))", i, args), &spec, "nt=1;kind=c02-host-arity");
+            }
+        }
+    }
     run_profile(
         em,
         seed,
